@@ -187,6 +187,20 @@ def families():
             return s, p, None
         return dict(kind="core", desc="owner=%r min_qty=%s extra_keys=%d" % (owner, mq, extra), build=build)
 
+    @fam("stmt_params")
+    def f7b(rng):
+        # the three ways a named bind gets its value: the bindparam's own default, Executable.params() on the statement, execute-time
+        # parameters; all three share one cache key
+        how = rng.choice(["default", "stmt", "stmt", "exec"])
+        mq = rng.choice([1, 5, 8, 10])
+        owner = rng.choice(OWNERS)
+        def build():
+            s = select(items.c.id).where(items.c.owner != owner).where(items.c.qty >= bindparam("mq", 2)).order_by(items.c.id)
+            if how == "stmt":
+                s = s.params(mq=mq)
+            return s, ({"mq": mq} if how == "exec" else None), None
+        return dict(kind="core", desc="owner!=%r mq via %s (%s)" % (owner, how, mq), build=build)
+
     @fam("literal_execute")
     def f8(rng):
         v = rng.choice([1, 5, 8])
